@@ -328,6 +328,10 @@ theorem DWInv_step {G : Type} (step : G → List (Input × InputStatus) → G) (
         exact ⟨⟨h1.tinv.sync, h1.tinv.exec, h1.tinv.rows⟩, h1.asked, h1.status, h1.remote⟩
       have hg1 : GlueInv ({ s with sync := sy } : P2P) gh := GlueInv_transfer s _ gh gh hg rfl rfl rfl (by show sy.queues.length = _; rw [hq]) rfl
       exact pair_tick step _ s' x s.sync.cells.length now [r] reqs' saves gh hsess1 hg1 hadv
+    | localInput s x handle input =>
+      have hstar : SStar (s, ⟨x.cur, x.R⟩) ((s.addLocalInput handle input).1, ⟨x.cur, x.R⟩) :=
+        SStar.step _ _ _ (SStar.refl _) (SStep.localInput s _ handle input)
+      exact GlueInv_run _ _ ⟨gh, hsess, hg⟩ hstar
   | setDelay s s' x now handle delay r hloc hp hset =>
     obtain ⟨gh', hinv', hg', _, hcur, hcells, hsp, hls, _, _, _, _⟩ :=
       setInputDelay_spec s s' gh ⟨x.cur, x.R⟩ [] now handle delay r hsess hg hloc hp hset
